@@ -335,14 +335,15 @@ class RaiseProducers(Contract):
             BIN_SEM[B.SUB] = lambda a, b: a - b
 
     def replay(self, inst, clause, model, info):
-        return PRODUCER_REPLAY.format(which=inst["which"])
+        return PRODUCER_REPLAY.format(which=inst["which"],
+                                      model=dict(model or {}))
 
 
 PRODUCER_REPLAY = '''
 import sys
 sys.path.insert(0, "/verif")
 from pyvc.replay_raising import replay_producer
-replay_producer({which!r})
+replay_producer({which!r}, {model!r})
 '''
 
 
